@@ -40,6 +40,12 @@ func rulesC16(c *Ctx) {
 	c11Post(c)
 	// the listeners a policy calls are those it was built with: Build gives each policy its own snapshot
 	buildCopiesConfig(c)
+	// … and an executor derived with WithContext has listeners of its own
+	c01WithContext(c)
+	// the retry executor's exceeded flag covers both limits (OnRetriesExceeded at most once per policy and execution)
+	c.Rule("retry-decision")
+	retryDecision(c, map[string]bool{"decision": true})
+	retryLoop(c, map[string]bool{"returns": true})
 }
 
 func c16Executor(c *Ctx) {
@@ -699,6 +705,8 @@ func rulesC15(c *Ctx) {
 
 func rulesC08(c *Ctx) {
 	c08Blocking(c)
+	// "when the execution's context is cancelled …": the context executions run under is the one the caller gave
+	c01WithContext(c)
 	c.Rule("retry")
 	retryLoop(c, map[string]bool{"recheck": true, "returns": true, "wait": true})
 	c10Apply(c)
